@@ -7,6 +7,7 @@ import (
 	"sort"
 	"strconv"
 	"strings"
+	"sync"
 	"time"
 )
 
@@ -222,7 +223,17 @@ func (u *UnitsDefinition) FormatLongFloat(data float64) string {
 	return output
 }
 
+// unitsCacheLock guards the lazily initialized caches of all units definitions. Units definitions (including the
+// predefined package-level ones) are shared between schemas and used from several goroutines at once.
+var unitsCacheLock sync.Mutex
+
 func (u *UnitsDefinition) getSortedMultipliersCache() []int64 {
+	unitsCacheLock.Lock()
+	defer unitsCacheLock.Unlock()
+	return u.getSortedMultipliersCacheLocked()
+}
+
+func (u *UnitsDefinition) getSortedMultipliersCacheLocked() []int64 {
 	if u.sortedMultipliersCache == nil {
 		var multipliers []int64
 		for multiplier := range u.MultipliersValue {
@@ -243,12 +254,11 @@ func (u *UnitsDefinition) parse(data string) (any, error) {
 			Message: "Empty string cannot be parsed as " + u.BaseUnitValue.NameLongPlural(),
 		}
 	}
-	if u.reCache == nil {
-		if err := u.updateReCache(); err != nil {
-			return 0, err
-		}
+	reCache, reSubExpNames, err := u.getReCache()
+	if err != nil {
+		return 0, err
 	}
-	match := u.reCache.FindStringSubmatch(data)
+	match := reCache.FindStringSubmatch(data)
 	if match == nil {
 		return u.buildUnitParseError(data)
 	}
@@ -256,9 +266,8 @@ func (u *UnitsDefinition) parse(data string) (any, error) {
 	var isFloat bool
 	var floatNumber float64
 	var intNumber int64
-	var err error
 	for _, multiplier := range u.getSortedMultipliersCache() {
-		matchGroupID := u.reSubExpNames[fmt.Sprintf("g%d", multiplier)]
+		matchGroupID := reSubExpNames[fmt.Sprintf("g%d", multiplier)]
 		result := match[matchGroupID]
 
 		intNumber, floatNumber, isFloat, err = u.handleParseMultiplier(
@@ -272,7 +281,7 @@ func (u *UnitsDefinition) parse(data string) (any, error) {
 			return 0, err
 		}
 	}
-	baseMatchGroup := match[u.reSubExpNames["g1"]]
+	baseMatchGroup := match[reSubExpNames["g1"]]
 	intNumber, floatNumber, isFloat, err = u.handleParseMultiplier(
 		baseMatchGroup,
 		1,
@@ -333,10 +342,23 @@ func (u *UnitsDefinition) handleParseMultiplier(
 	return intNumber, floatNumber, isFloat, nil
 }
 
+// getReCache returns the compiled expression and its group index, building them on first use.
+func (u *UnitsDefinition) getReCache() (*regexp.Regexp, map[string]int, error) {
+	unitsCacheLock.Lock()
+	defer unitsCacheLock.Unlock()
+	if u.reCache == nil {
+		if err := u.updateReCache(); err != nil {
+			return nil, nil, err
+		}
+	}
+	return u.reCache, u.reSubExpNames, nil
+}
+
+// updateReCache must be called with unitsCacheLock held.
 func (u *UnitsDefinition) updateReCache() error {
 	var parts []string
 	if u.MultipliersValue != nil {
-		for _, multiplier := range u.getSortedMultipliersCache() {
+		for _, multiplier := range u.getSortedMultipliersCacheLocked() {
 			unit := u.MultipliersValue[multiplier]
 			parts = append(parts, fmt.Sprintf(
 				"(?:|(?P<g%s>[0-9]+)\\s*(%s|%s|%s|%s))",
